@@ -40,17 +40,17 @@ fn build_from_parsed(
 
     let device = common_context.get_device();
 
-    if passed_2.code.len() as u32 > device.flash_size * 2 {
+    if passed_2.code.len() > device.flash_size as usize * 2 {
         bail!(
             "Flash size overdue by {} bytes",
-            passed_2.code.len() as u32 - device.flash_size * 2
+            passed_2.code.len() - device.flash_size as usize * 2
         )
     }
 
-    if passed_2.eeprom.len() as u32 > device.eeprom_size {
+    if passed_2.eeprom.len() > device.eeprom_size as usize {
         bail!(
             "Eeprom size overdue by {} bytes",
-            passed_2.eeprom.len() as u32 - device.eeprom_size
+            passed_2.eeprom.len() - device.eeprom_size as usize
         )
     }
 
